@@ -49,6 +49,33 @@ func sheetXMLWithToken(tok string) []byte {
 	return c17SheetXML(c17Sheet{rows: []c17Row{{r: 1, cells: []c17Cell{{ref: "A1", t: "inlineStr", is: &tok}}}}})
 }
 
+// c18OrderOf: the part tokens of a text in order, runs of the same token counted once
+func c18OrderOf(s string) string {
+	var out []string
+	for _, t := range c18TokRe.FindAllString(s, -1) {
+		if len(out) == 0 || out[len(out)-1] != t {
+			out = append(out, t)
+		}
+	}
+	return strings.Join(out, ",")
+}
+
+// c18EntryPoints: plain text, Markdown and chunks of the whole file follow the declared order too
+func c18EntryPoints(r *Run, format, p string, wantToks []string, cv V) {
+	want := strings.Join(wantToks, ",")
+	txt, _, e1 := tabula.Open(p).Text()
+	md, _, e2 := tabula.Open(p).ToMarkdown()
+	var ct strings.Builder
+	cc, _, e3 := tabula.Open(p).Chunks()
+	if e3 == nil && cc != nil {
+		for _, c := range cc.Chunks {
+			ct.WriteString(c.Text + "\n")
+		}
+	}
+	ok := e1 == nil && e2 == nil && e3 == nil && c18OrderOf(txt) == want && c18OrderOf(md) == want && c18OrderOf(ct.String()) == want
+	r.Check(ok, format+"-entry-points", fmt.Sprintf("declared readable order %s; Text gives %s (%v), ToMarkdown %s (%v), Chunks %s (%v)", want, c18OrderOf(txt), e1, c18OrderOf(md), e2, c18OrderOf(ct.String()), e3), cv)
+}
+
 func init() {
 	props["C18"] = func(r *Run, rng *RNG) {
 		thorough := r.Tier == "thorough"
@@ -165,6 +192,7 @@ func init() {
 							}
 						}
 						r.Check(okP, "xlsx-pages", "page count / per-page content does not follow the declared sheets", cv)
+						c18EntryPoints(r, "xlsx", p, wantToks, cv)
 					}
 					os.Remove(p)
 				}
@@ -287,6 +315,7 @@ func init() {
 							}
 						}
 						r.Check(okP, "pptx-pages", "page count / per-page content does not follow the declared slides", cv)
+						c18EntryPoints(r, "pptx", p, wantToks, cv)
 					}
 					os.Remove(p)
 				}
@@ -447,6 +476,7 @@ func init() {
 							}
 						}
 						r.Check(okP, "epub-pages", "page count / per-page content does not follow the spine", cv)
+						c18EntryPoints(r, "epub", p, wantToks, cv)
 					}
 					os.Remove(p)
 				}
